@@ -121,7 +121,15 @@ pub fn run(ctx: &Ctx) {
     let mut g = SplitMix64::new(ctx.seed ^ 0xC08);
     let thorough = ctx.thorough();
     for b in &bs {
-        let kps = tok::keypairs(b, &mut g, if thorough { 4 } else { 2 });
+        let mut kps = tok::keypairs(b, &mut g, if thorough { 4 } else { 2 });
+        // valid keys whose encodings begin / end with white space, NUL or 0xff
+        kps.extend(tok::edge_keypairs(b, &mut g));
+        for t in tok::EDGE_BYTES {
+            let mut k = g.bytes(32);
+            k[0] = t;
+            k[31] = t;
+            offer(b, &mut m, &mut rep, "local", &k, "valid:edge-bytes", Expect::Accept);
+        }
         // ---- valid keys of every kind
         for _ in 0..3 {
             let k = (b.local_random)().unwrap_or_default();
